@@ -1,10 +1,78 @@
 (** C04 — applying a reaction's own template regenerates it, forwards and backwards.
-    Statements only; every proof is [exact <lemma of proof/C04_*.v>]. *)
+    Statements only; every proof is [exact <lemma of proof/C04_*.v>].
+
+    Vocabulary (model/C04_Model.v; rule application from model/C03_Model.v): a reaction is the pair (G, H) of its parsed
+    reactant and product graphs (node ids = atom maps).  [its_construct G H] = rsmi_to_its, [get_rc] = the centre,
+    [template core invert G H] = the template handed to the reactor (centre | full ITS, inverted when applied backwards),
+    [mode_E G H] = the hydrogen mode the reaction calls for (explicit centre hydrogens -> default mode),
+    [rule_of] = the SynRule the reactor builds, [pattern_of l] = the pattern given to the matcher,
+    [substrate invert G H] = the own reactants (products, backwards) with implicit hydrogens,
+    [id_map ns] = the identity mapping, [match_okb] / [match_rcb] = what the matcher's node/edge predicates demand of a
+    mapping (on the pattern / on the rule), [regenerate] = _glue_graph along the identity (+ _explicit_h in mode E),
+    [regen_exact T A B] = the decomposition of T is (A, B): same atoms with the same element, hydrogen count and charge
+    and the same bonds with the same orders (the aromatic flag and 'neighbors' are not compared: the gluing copies them
+    from the substrate and RDKit re-perceives them), [centre_carries T] = no atom outside the centre changes charge or
+    hydrogen count, [consistent_H T] = the precondition "all centre hydrogens explicit, or none".
+    Hypotheses, all booleans evaluated by [run_c04] on every correspondence case: [pair_wfb G H] (both graphs simple
+    with positive orders, same atoms, same elements: balanced and mapped) and [no_explicit_H G] (the "none explicit"
+    branch of the precondition: every implicit-mode reaction of the corpora has no hydrogen atom at all).
+
+    NOT covered by a theorem (correspondence + oracle only, see TESTED_NOT_PROVED in harness/props/C04.py): the
+    "all centre hydrogens explicit" branch (default mode: _strip_explicit_h, hydrogen expansion, _explicit_h). *)
 From Coq Require Import List NArith ZArith Bool.
-From SK Require Import lib.Tok lib.LGraph model.C03_Model model.C04_Model proof.C04_Proof.
+From SK Require Import lib.Tok lib.LGraph model.C03_Model model.C04_Model proof.C04_Proof proof.C04_Examples.
 Import ListNotations.
 Local Open Scope Z_scope.
 
-Theorem C04_id_map_domain : forall ns : list N, map fst (id_map ns) = ns.
-Proof. exact id_map_fst. Qed.
-Print Assumptions C04_id_map_domain.
+(** the precondition is decided by a boolean function of the ITS; a reaction written without hydrogen atoms satisfies
+    it and calls for the implicit mode *)
+Theorem C04_consistent_H : forall G H : hostg,
+  pair_wfb G H = true -> no_explicit_H G = true ->
+  consistent_H (its_construct G H) = true /\ mode_E G H = false.
+Proof. exact consistent_and_mode. Qed.
+Print Assumptions C04_consistent_H.
+
+(** the identity is a valid match of the prepared pattern of the own template on the own substrate -- centre or full
+    ITS, forwards or backwards, with NO condition on the centre *)
+Theorem C04_identity_match : forall (core invert : bool) (G H : hostg),
+  pair_wfb G H = true -> no_explicit_H G = true ->
+  exists (rc : its) (l r : molg), rule_of core invert G H = Some (rc, l, r) /\
+    match_okb (substrate invert G H) (pattern_of l) (id_map (node_ids (pattern_of l))) = true /\
+    match_rcb (substrate invert G H) rc (id_map (node_ids (pattern_of l))) = true.
+Proof. exact identity_match. Qed.
+Print Assumptions C04_identity_match.
+
+(** gluing along the identity gives an ITS whose decomposition is the reaction again: always for the full ITS, and
+    for the centre whenever it carries every change; backwards the products are taken to the reactants *)
+Theorem C04_identity_glue : forall (core invert : bool) (G H : hostg),
+  pair_wfb G H = true -> no_explicit_H G = true ->
+  (core = true -> centre_carries (its_construct G H) = true) ->
+  exists T : its, regenerate core invert G H = Some T /\
+    regen_exact T (if invert then H else G) (if invert then G else H) = true.
+Proof. exact identity_glue. Qed.
+Print Assumptions C04_identity_glue.
+
+(** the condition on the centre cannot be dropped: a reaction inside the precondition whose own centre template, glued
+    along the identity, does NOT give the reaction back (water + ammonia -> hydroxide + ammonium; known findings
+    *:centre:*:outside-centre-change) *)
+Theorem C04_centre_refuted : exists G H : hostg,
+  pair_wfb G H = true /\ no_explicit_H G = true /\ consistent_H (its_construct G H) = true /\
+  centre_carries (its_construct G H) = false /\
+  exists T : its, regenerate true false G H = Some T /\ regen_exact T G H = false /\ regen_folded T G H = false.
+Proof. exact centre_refuted. Qed.
+Print Assumptions C04_centre_refuted.
+
+(** PARTIAL.  Full clause wanted: the reaction is among the reactor's results.  Proved: for ANY list of mappings the
+    pruning keeps, if it contains the identity then its_list contains an ITS that decomposes to the reaction.  Missing
+    (tested by the oracle on every run): (i) the matcher returns the identity among the raw matches -- by
+    C04_identity_match it is a valid match, completeness of the engine is C06; (ii) the pruning by rule automorphisms
+    keeps the identity or a match gluing to the same ITS (C11 clause 4); (iii) RDKit serialises the ITS to a reaction
+    that Standardize.fit maps to the standardised input. *)
+Theorem C04_in_results_partial : forall (core invert : bool) (G H : hostg) (kept : list mapping),
+  pair_wfb G H = true -> no_explicit_H G = true ->
+  (core = true -> centre_carries (its_construct G H) = true) ->
+  In (identity core invert G H) kept ->
+  exists T : its, In (Some T) (its_list core invert G H kept) /\
+    regen_exact T (if invert then H else G) (if invert then G else H) = true.
+Proof. exact in_results_partial_all. Qed.
+Print Assumptions C04_in_results_partial.
